@@ -318,3 +318,43 @@ Example C02_range_nonvacuous :
   fst (spec_Select c02_ex 32) = 32 /\ fst (spec_Select c02_ex 33) = 191 /\
   In 32 (spec_IndexSelect32 c02_ex).
 Proof. vm_compute. intuition congruence. Qed.
+
+(** * widened: select against PrevOne (C13's model) *)
+From Low Require Import Proofs.SelectPrev.
+
+(** the last 1-bit before the i-th 1-bit is the (i-1)-th; there is none before the 0-th *)
+Theorem C02_PrevOne_before_select : forall ws i, words_ok ws -> 0 <= i < zlen (all_ones ws) ->
+  let a := fst (spec_Select ws i) in
+  1 <= a ->
+  PrevOne ws 0 a = Some (if 0 <? i then fst (spec_Select ws (i - 1)) else -1).
+Proof. exact PrevOne_before_select. Qed.
+Print Assumptions C02_PrevOne_before_select.
+
+Theorem C02_Select32_then_PrevOne : forall ws sidx i a b, words_ok ws ->
+  IndexSelect32 ws = Some sidx -> 0 <= i < zlen (all_ones ws) ->
+  Select32 ws sidx i = Some (a, b) -> 1 <= a ->
+  PrevOne ws 0 a =
+  match (if 0 <? i then Select32 ws sidx (i - 1) else Some (-1, 0)) with
+  | Some (r, _) => Some r
+  | None => None
+  end.
+Proof. exact Select32_then_PrevOne. Qed.
+Print Assumptions C02_Select32_then_PrevOne.
+
+Theorem C02_Select32R64_then_PrevOne : forall ws sidx ridx i a b, words_ok ws ->
+  IndexSelect32R64 ws = Some (sidx, ridx) -> 0 <= i < zlen (all_ones ws) ->
+  Select32R64 ws sidx ridx i = Some (a, b) -> 1 <= a ->
+  PrevOne ws 0 a =
+  match (if 0 <? i then Select32R64 ws sidx ridx (i - 1) else Some (-1, 0)) with
+  | Some (r, _) => Some r
+  | None => None
+  end.
+Proof. exact Select32R64_then_PrevOne. Qed.
+Print Assumptions C02_Select32R64_then_PrevOne.
+
+Example C02_PrevOne_nonvacuous :
+  0 <= 33 < zlen (all_ones c02_ex) /\ fst (spec_Select c02_ex 33) = 191 /\
+  PrevOne c02_ex 0 191 = Some 32 /\ Select32 c02_ex [0; 32] 32 = Some (32, 191) /\
+  PrevOne [2^63; 2] 0 63 = Some (-1) /\ Select32 [2^63; 2] [63] 0 = Some (63, 65) /\
+  PrevOne [2^63; 2] 0 65 = Some 63.
+Proof. vm_compute. intuition congruence. Qed.
